@@ -28,7 +28,12 @@ def input_targets(mdl, flat):
 
 def gen_case(rng, tier, adaptive=False):
     for _ in range(100):
-        mdl = G.gen_model(rng, max_nodes=4, min_nodes=1, linear=True, clones=True, depth=rng.choice([0, 0, 1]), hostile=rng.random() < 0.3)
+        wide = (not adaptive) and rng.random() < 0.1
+        if wide:
+            # ten or more nodes addressed by one wildcard (the index-based edge branch of vectorized networks)
+            mdl = G.gen_model(rng, max_nodes=12, min_nodes=10, linear=True, clones=True, depth=0, hostile=False)
+        else:
+            mdl = G.gen_model(rng, max_nodes=4, min_nodes=1, linear=True, clones=True, depth=rng.choice([0, 0, 1, 2]), hostile=rng.random() < 0.3)
         flat = M.flatten(mdl)
         sp = M.state_paths(flat)
         if len(set(sp)) != len(sp):
@@ -36,7 +41,7 @@ def gen_case(rng, tier, adaptive=False):
         tg = input_targets(mdl, flat)
         if not tg:
             continue
-        vectorize = rng.random() < 0.5
+        vectorize = rng.random() < 0.5 or wide
         dt = rng.choice([F(1), F(1, 2)])
         steps = rng.choice([3, 4, 4, 5, 6]) if not adaptive else rng.choice([3, 5, 9])
         inputs, ext, colvec = {}, [], False
@@ -44,7 +49,7 @@ def gen_case(rng, tier, adaptive=False):
             p = rng.choice(tg)
             *npath, op, var = p.split("/")
             r = rng.random()
-            key = p if r < 0.5 else f"all/{op}/{var}"
+            key = p if (r < 0.5 and not wide) else f"all/{op}/{var}"
             if key in inputs:
                 continue
             targets = [f"{n}/{op}/{var}" for n in resolve(mdl, flat, key)]
@@ -182,6 +187,37 @@ def run_any(case):
     return impl_adaptive(case) if case.get("adaptive") else N.impl_run(case)
 
 
+def adaptive_run_probe(seed):
+    """run(solver='scipy') with inputs whose number of samples differs from T/step_size: the samples lie uniformly on [0, T] (linear interpolation);
+    compared with an independent integration (scipy solve_ivp on the same interpolant, tight tolerances)"""
+    from pyrates import OperatorTemplate, NodeTemplate, CircuitTemplate
+    from scipy.integrate import solve_ivp
+    rng = random.Random(seed)
+    bad, done = [], 0
+    with M.Scratch():
+        with warnings.catch_warnings():
+            warnings.simplefilter("ignore")
+            for N_, T, dt in [(41, 2.0, 0.01), (11, 1.0, 0.01), (rng.choice([7, 23, 301]), 1.5, 0.005)]:
+                a = rng.choice([0.5, 1.0, 2.0])
+                u = np.cumsum(np.array([rng.uniform(-1, 1) for _ in range(N_)]))
+                try:
+                    op = OperatorTemplate(name="io", equations=["x' = -a*x + inp"], variables={"x": "output(0.5)", "inp": "input(0.0)", "a": a}, path=None)
+                    c = CircuitTemplate(name="net", nodes={"p": NodeTemplate(name="n", operators=[op], path=None)}, edges=[], path=None)
+                    res = c.run(simulation_time=T, step_size=dt, sampling_step_size=T / 20, solver="scipy", inputs={"p/io/inp": u}, outputs={"x": "p/io/x"},
+                                float_precision="float64", verbose=False, clear=True, rtol=1e-9, atol=1e-11)
+                    grid = np.linspace(0.0, T, N_)
+                    times = np.asarray(res.index.values, dtype=float)
+                    ref = solve_ivp(lambda t, y: -a * y + np.interp(t, grid, u), (0.0, float(times[-1])), [0.5], t_eval=times, rtol=1e-11, atol=1e-13, max_step=float(grid[1] - grid[0]) / 4)
+                    got = np.asarray(res.values, dtype=float).reshape(-1)
+                    err = float(np.max(np.abs(got - ref.y[0])))
+                    done += 1
+                    if not np.all(np.isfinite(got)) or err > 1e-5:
+                        bad.append({"samples": N_, "T": T, "step_size": dt, "max_abs_error": err, "got_last": float(got[-1]), "expected_last": float(ref.y[0][-1])})
+                except Exception as e:
+                    bad.append({"samples": N_, "T": T, "raise": f"{type(e).__name__}: {str(e)[:200]}"})
+    return {"done": done, "bad": bad}
+
+
 def check(tier, seed, replay=None):
     rep = C.Report(PID, tier, seed)
     rng = random.Random(seed)
@@ -222,6 +258,14 @@ def check(tier, seed, replay=None):
         else:
             rep.validated()
     drv.close()
+    ap = C.run_forked(adaptive_run_probe, [seed], timeout=600)[0] if not replay else {"done": 0, "bad": []}
+    if "crash" in ap:
+        raise C.HarnessError("adaptive run probe crashed: " + str(ap)[:400])
+    rep.count("R-adaptive-run-input-length", None, n=ap["done"])
+    for _ in range(ap["done"] - len([b for b in ap["bad"] if "raise" not in b])):
+        rep.validated()
+    if ap["bad"]:
+        rep.violation("run(solver='scipy'): an input with a number of samples different from T/step_size is not interpolated on [0, T]", {"adaptive_run_probe": ap["bad"][:3]})
     rep.sample({"inputs": cases[0]["run"]["inputs"], "ext": cases[0]["ext_inputs"][:2], "impl": impl[0] if "error" in impl[0] else str(impl[0])[:300]})
     rep.cov["streams"]["impl_vs_spec_disagreements"] = len(bad)
     if bad:
